@@ -504,3 +504,27 @@ _instances_before_simplex = instances
 def instances(tier):       # noqa: F811
     from .common import simplex_lemma_instances
     return _instances_before_simplex(tier) + [apply_mapping_types_bounded_instance()] + simplex_lemma_instances('C14')
+
+
+_instances_before_history4 = instances
+
+
+def instances(tier):       # noqa: F811
+    from .common import with_history
+    from pb_bss import permutation_alignment as pa
+
+    def warm():
+        rng = np.random.RandomState(4)
+        for K, F, T in ((3, 5, 4), (2, 7, 3), (4, 3, 6)):
+            mask = rng.uniform(size=(K, F, T))
+            mp = np.stack([rng.permutation(K) for _ in range(F)], axis=1)
+            pa.apply_mapping(mask, mp)
+            pa.GreedyPermutationAlignment()(mask)
+            pa.OraclePermutationAlignment()(mask, mask[::-1].copy())
+            pa._mapping_from_score_matrix(rng.normal(size=(F, K, K)), 'optimal')
+    extra = [with_history(apply_mapping_instance(2, 2, 2, [[1, 0], [0, 1]]), warm, 'other-sizes'),
+             with_history(apply_mapping_instance(3, 1, 2, [[2], [0], [1]]), warm, 'other-sizes'),
+             with_history(score_instance(3, (), 'greedy'), warm, 'other-sizes'),
+             with_history(score_instance(2, (2,), 'optimal'), warm, 'other-sizes')]
+    return _instances_before_history4(tier) + extra
+
